@@ -171,7 +171,11 @@ class RDPNegotiationBase(ParsableBase):
     flags = attr.ib(validator=attr.validators.deep_iterable(member_validator=attr.validators.instance_of(
         (RDPNegotiationRequestFlags, RDPNegotiationResponseFlags)
         )))
-    protocol = attr.ib(validator=attr.validators.deep_iterable(member_validator=attr.validators.in_(RDPProtocol)))
+    protocol = attr.ib(
+        # RDPProtocol.RDP is the zero value of the field, the absence of the other protocols, not a bit of its own
+        converter=lambda protocols: set(protocol for protocol in protocols if protocol != RDPProtocol.RDP),
+        validator=attr.validators.deep_iterable(member_validator=attr.validators.in_(RDPProtocol)),
+    )
 
     @classmethod
     @abc.abstractmethod
